@@ -47,6 +47,14 @@ fn exec(m: &mut Mon, op: &str, a: &[Arg]) {
                 m.eq("addmul_n.value", &out, &e_val);
             }
         }
+        "addmul_n_unequal" => {
+            // documented: panics if the lengths are not the same; nothing may be computed from mismatched slices
+            let (acc, x, y) = (a[0].u().to_vec(), a[1].u(), a[2].u());
+            assert!(acc.len() != x.len() || acc.len() != y.len(), "harness: lengths are equal");
+            m.nontrivial(true);
+            let mut out = acc.clone();
+            m.must_panic(|| alg::addmul_n(&mut out, x, y), "lengths differ");
+        }
         "mul_nx1" => {
             let (acc, k) = (a[0].u().to_vec(), a[1].n() as u64);
             let exact = big::big(&acc) * BigUint::from(k);
@@ -196,6 +204,9 @@ fn workload(m: &mut Mon) {
                     let x = gen::slice(&mut r, la);
                     let y = gen::slice(&mut r, lb);
                     m.case("addmul", 64 * ln, vec![au(&acc), au(&x), au(&y)]);
+                    if k == 0 && (la != ln || lb != ln) && ln <= 6 && la <= 6 && lb <= 6 {
+                        m.case("addmul_n_unequal", 64 * ln, vec![au(&acc), au(&x), au(&y)]);
+                    }
                 }
             }
         }
@@ -227,6 +238,18 @@ fn workload(m: &mut Mon) {
                 _ => word(&mut r),
             };
             m.case("addmul_n", 64 * n, vec![au(&acc), au(&x), au(&y)]);
+            if r.chance(1, 8) {
+                // one or both operands a limb or two shorter or longer than the accumulator
+                let (dx, dy) = loop {
+                    let (dx, dy) = (r.below(5) as isize - 2, r.below(5) as isize - 2);
+                    if (dx, dy) != (0, 0) && n as isize + dx >= 0 && n as isize + dy >= 0 {
+                        break (dx, dy);
+                    }
+                };
+                let x2 = gen::slice(&mut r, (n as isize + dx) as usize);
+                let y2 = gen::slice(&mut r, (n as isize + dy) as usize);
+                m.case("addmul_n_unequal", 64 * n, vec![au(&acc), au(&x2), au(&y2)]);
+            }
             m.case("mul_nx1", 64 * n, vec![au(&acc), Arg::N(k.into())]);
             m.case("addmul_nx1", 64 * n, vec![au(&acc), au(&x), Arg::N(k.into())]);
             m.case("submul_nx1", 64 * n, vec![au(&acc), au(&x), Arg::N(k.into())]);
